@@ -285,8 +285,10 @@ func (r *Result) Finish(verifDir string, findings []Finding, seed int64) int {
 		samples = append(samples, map[string]any{"known_finding": o})
 	}
 	perRule := map[string]int{}
+	sampled := map[string]bool{}
 	for _, o := range r.Obl {
-		if o.Verdict == Discharged && perRule[o.Rule] < 4 && len(samples) < 60 {
+		if o.Verdict == Discharged && perRule[o.Rule] < 6 && len(samples) < 80 && !sampled[o.Key()] {
+			sampled[o.Key()] = true
 			perRule[o.Rule]++
 			samples = append(samples, o)
 		}
